@@ -45,6 +45,7 @@ type myQuestion struct {
 	disembargoSent bool       // the peer sent Disembargo(senderLoopback) for result pointer 0 of this question
 	echoSeen   bool
 	embargoID  uint32
+	embargoCap uint32 // the peer's export the embargoed result pointer designates
 	embargoSnap []uint64 // tokens of calls pipelined on this question that were in flight when the Disembargo was sent
 	paDoneAtSend bool      // the target answer's implementation had already finished when this call was sent
 }
@@ -322,7 +323,11 @@ func (p *peer) moveCall() bool {
 	t := ts[s.Choice("peer-call-target", len(ts))]
 	q := &myQuestion{id: p.nextQ, kind: "call", token: p.r.newToken(), targetApp: -1}
 	p.nextQ++
-	switch s.Choice("peer-call-flags", 8) {
+	fl := s.Choice("peer-call-flags", 8)
+	if p.r.capsBias && fl <= 1 {
+		fl = 4 + 2*fl // C07: plain calls become calls that return a fresh / the parameter capability
+	}
+	switch fl {
 	case 0, 1:
 		q.flags = 0
 	case 2:
@@ -339,7 +344,11 @@ func (p *peer) moveCall() bool {
 		q.flags = fSlow | fRetFresh
 	}
 	// parameters may carry capabilities
-	switch s.Choice("peer-param-cap", 5) {
+	pc := s.Choice("peer-param-cap", 5)
+	if p.r.capsBias && pc >= 3 {
+		pc -= 3 // C07: (almost) every call carries a capability
+	}
+	switch pc {
 	case 0:
 		q.paramCaps = []capDesc{p.newCapForConn()}
 	case 1:
@@ -741,6 +750,7 @@ func (p *peer) moveDisembargo() bool {
 	q := cands[s.Choice("peer-disembargo-which", len(cands))]
 	q.disembargoSent = true
 	q.embargoID = p.nextEmbargo
+	q.embargoCap = q.retCaps[0].id
 	p.nextEmbargo++
 	for _, id := range p.order {
 		if c := p.myQ[id]; c.pa == q && len(c.paXform) == 1 && c.paXform[0] == 0 && !c.returned {
@@ -1090,8 +1100,8 @@ func (p *peer) handleDisembargo(d rpccp.Disembargo) {
 		q.echoSeen = true
 		s.Probe("disembargo_echo_received")
 		tg, _ := d.Target()
-		if tg.Which() != rpccp.MessageTarget_Which_importedCap || tg.ImportedCap() != q.retCaps[0].id {
-			p.r.mfail("disembargo_echo_target", "rpc.go:(*Conn).handleDisembargo", fmt.Sprintf("the echo of Disembargo %d targets %v/%d, want importedCap %d", id, tg.Which(), tg.ImportedCap(), q.retCaps[0].id))
+		if tg.Which() != rpccp.MessageTarget_Which_importedCap || tg.ImportedCap() != q.embargoCap {
+			p.r.mfail("disembargo_echo_target", "rpc.go:(*Conn).handleDisembargo", fmt.Sprintf("the echo of Disembargo %d targets %v/%d, want importedCap %d", id, tg.Which(), tg.ImportedCap(), q.embargoCap))
 			return
 		}
 		for _, tok := range q.embargoSnap {
@@ -1101,7 +1111,7 @@ func (p *peer) handleDisembargo(d rpccp.Disembargo) {
 					mq = c
 				}
 			}
-			if p.theirByToken[tok] == nil && (mq == nil || !mq.returned) {
+			if p.theirByToken[tok] == nil && (mq == nil || (!mq.returned && !mq.finishSent)) { // (a call the peer has finished may be dropped)
 				p.r.mfail("embargo_broken", "rpc.go:(*Conn).handleDisembargo", fmt.Sprintf("the Conn echoed Disembargo %d although the call with token %d, pipelined on question %d before the Disembargo was sent, has neither been reflected to the peer nor answered", id, tok, q.id))
 				return
 			}
